@@ -710,7 +710,7 @@ def run(chk, p, t):
         "exactness as values, symmetry of lineOfSight as numbers, the Sun-fraction range."
     )
     chk.assumptions += ["getAzimuth returns an angle in [0, 2pi) (wrapAngle2Pi), getElevation in [-pi/2, pi/2]", "mask limits lie in [0, 2pi] (enforced by the az_mask setter)"]
-    for fn in (rule_r1, rule_r2, rule_r3, rule_r4, rule_r5, rule_r6, rule_r7, rule_r8, rule_r11, rule_r12):
+    for fn in (rule_r1, rule_r2, rule_r3, rule_r4, rule_r5, rule_r6, rule_r7, rule_r8, rule_r11, rule_r12, rule_r13):
         rid = "C14.R" + fn.__name__.split("_r")[-1]
         if not chk.wants(rid):
             continue
@@ -907,6 +907,78 @@ def rule_r12(chk, p, t):
     from rules import C04
 
     C04.rule_r10(chk, p, t, rid="C14.R12", parts=("measurement",))
+
+
+def rule_r13(chk, p, t):
+    from rsa import ratfun as rf
+
+    r = chk.rule(
+        "C14.R13",
+        "the configured field-of-view shape and size reach the object that decides membership",
+        5,
+        "membership 'equals the stated test for the sensor's configured shape and size' only if the factory builds that "
+        "shape with those sizes: FieldOfView.fromConfig hands each constructor parameter the configuration field OF THE SAME "
+        "NAME times DEG2RAD (compared as rational functions after inlining locals; positional and keyword binding resolved), "
+        "under the test of the matching shape label; each constructor stores the parameter in the attribute of its name "
+        "(`self._x = x` / `self.x = x`) and the read-only property returns it",
+        "the membership tests themselves (R4)",
+    )
+    fov = p.cls("resonaate.sensors.field_of_view.FieldOfView")
+    fc = fov.methods.get("fromConfig")
+    require(fc is not None, "FieldOfView.fromConfig not found", fov.node)
+    cfgp = fc.params[1]
+    subs = {c.name: c for c in p.subclasses(fov)}
+    built = 0
+    for c in [x for x in walk_no_nested(fc.node) if isinstance(x, ast.Call) and call_name(x) in subs]:
+        ci = subs[call_name(c)]
+        init = ci.methods.get("__init__")
+        pars = init.params[1:]
+        bind = {pars[i]: a for i, a in enumerate(c.args) if i < len(pars)}
+        bind.update({k.arg: k.value for k in c.keywords if k.arg})
+        built += 1
+        for par in pars:
+            cons = f"{fc.qualname}:{ci.name}.{par}"
+            if par not in bind:
+                r.violation(cons, f"fov-size-missing:{ci.name}.{par}", f"fromConfig builds {ci.name} without `{par}`", fc.loc(c))
+                continue
+            v = inline_locals(fc, bind[par])
+            want = rf.parse(f"{cfgp}.{par} * DEG2RAD")
+            try:
+                same = rf.same_value(v, want)
+            except Exception:  # noqa: BLE001
+                same = False
+            if same:
+                r.ok(cons, f"{cfgp}.{par} * DEG2RAD", fc.loc(c))
+                continue
+            fields = sorted({n.attr for n in ast.walk(v) if isinstance(n, ast.Attribute) and isinstance(n.value, ast.Name) and n.value.id == cfgp})
+            if fields and par not in fields:
+                r.violation(cons, f"fov-size-source:{ci.name}.{par}<-{','.join(fields)}", f"{ci.name}.{par} is built from `{unparse(v)[:60]}` - the configured `{fields[0]}`, not `{par}`: every {ci.name} made from a configuration ignores its configured {par.replace('_', ' ')}, so membership is decided for another shape than the configured one whenever the two differ", fc.loc(c))
+            elif fields == [par]:
+                r.violation(cons, f"fov-size-unit:{ci.name}.{par}:{unparse(v)[:40]}", f"{ci.name}.{par} is `{unparse(v)[:60]}`, expected {cfgp}.{par} * DEG2RAD (degrees to radians, the full span)", fc.loc(c))
+            else:
+                r.undecided(cons, f"{ci.name}.{par} is `{unparse(v)[:70]}`", fc.loc(c))
+        # constructor stores
+        for par in pars:
+            stores = [n for n in walk_no_nested(init.node) if isinstance(n, (ast.Assign, ast.AnnAssign)) and unparse(n.targets[0] if isinstance(n, ast.Assign) else n.target) in (f"self._{par}", f"self.{par}")]
+            cons = f"{ci.qualname}.__init__:{par}"
+            if len(stores) == 1 and isinstance(stores[0].value, ast.Name) and stores[0].value.id == par:
+                prop = ci.methods.get(par)
+                rets = [n for n in walk_no_nested(prop.node) if isinstance(n, ast.Return) and n.value is not None] if prop is not None else []
+                if prop is None or (len(rets) == 1 and unparse(rets[0].value) == unparse(stores[0].targets[0] if isinstance(stores[0], ast.Assign) else stores[0].target)):
+                    r.ok(cons, "stored and read back under its own name", init.loc(stores[0]))
+                else:
+                    r.violation(cons, f"fov-property:{ci.name}.{par}", f"the property {ci.name}.{par} returns `{unparse(rets[0].value) if rets else None}`", prop.loc())
+            elif len(stores) == 1:
+                v = stores[0].value
+                other = [q for q in pars if q != par and any(isinstance(n, ast.Name) and n.id == q for n in ast.walk(v))]
+                if other and not any(isinstance(n, ast.Name) and n.id == par for n in ast.walk(v)):
+                    r.violation(cons, f"fov-store:{ci.name}.{par}<-{other[0]}", f"{ci.name}.__init__ stores `{unparse(v)[:50]}` as {par}", init.loc(stores[0]))
+                else:
+                    r.undecided(cons, f"{par} stored as `{unparse(v)[:60]}`", init.loc(stores[0]))
+            else:
+                r.undecided(cons, f"{len(stores)} stores of {par}", init.loc())
+    if built < 2:
+        r.error("constructors", f"fromConfig builds {built} field-of-view shapes (2 confirmed by hand)")
 
 
 def rule_r6(chk, p, t, rid="C14.R6"):
